@@ -312,13 +312,23 @@ func (a Amount) String() string {
 	if a.exp > 1000 {
 		return "NA"
 	}
-	p := uint64(intPow(10, a.exp))
 	v := uint64(a.value)
 	s := ""
 	if a.value < 0 {
 		s = "-"
 		v = -v // two's complement magnitude, also correct for math.MinInt64
 	}
+	if a.exp > 18 {
+		// 10^exp does not fit in 64 bits: place the decimal point
+		// in the digits instead of dividing.
+		d := strconv.FormatUint(v, 10)
+		if uint32(len(d)) <= a.exp {
+			d = strings.Repeat("0", int(a.exp)-len(d)+1) + d
+		}
+		i := len(d) - int(a.exp)
+		return s + d[:i] + "." + d[i:]
+	}
+	p := uint64(intPow(10, a.exp))
 	v1 := v / p
 	v2 := v - (v1 * p)
 	return fmt.Sprintf("%s%d.%0*d", s, v1, a.exp, v2)
